@@ -15,6 +15,7 @@ LEVEL = "exploration"
 RULE = ("every built-in data command x shapes of rank 1-3 incl. length-1 axes x common cell permutation x reshape to another rank; "
         "element-wise commands on rasters of 1-2.1 million cells compared window by window with the command run on the window alone; "
         "distinct by (command, n, source shape rank, target rank, has length-1 axis, dtypes, mask class)")
+SCRATCH_PER_CASE = True      # no directory is used beyond the case that asked for it
 REQUIRED_COUNTERS = ["large_variables_read_in_two_layouts", "shape_postconditions", "permutation_checks", "reshape_checks", "layout_checks", "model_reshape_checks", "large_rasters_checked", "window_checks", "direct_execute_cases", "same_path_rearrangements", "few_row_models", "written_files_compared"]
 ASSUMPTIONS = ["z-score commands compared with 1e-9 tolerance (float summation order), all others bit-exact on the dyadic lattice",
                "commands raising the same specific error on both sides are not judged"]
